@@ -398,7 +398,9 @@ static const char* run_one(const std::string& in, int api, int errsz, int timeou
         if (mjs_getError(spec) && mjs_getError(spec)[0] && !mjs_isWarning(spec)) viol("model-with-error-text", "");
         S.compiled++; outcome = "compiled";
         g_armed = 0;
+        printf("R %ld\n", (long)g_index);
         if (run_model(m)) outcome = "ran";
+        printf("L %ld\n", (long)g_index);
         g_armed = 1;
         mj_deleteModel(m);
       }
@@ -416,7 +418,9 @@ static const char* run_one(const std::string& in, int api, int errsz, int timeou
     } else {
       S.compiled++; outcome = "loaded";
       g_armed = 0;
+      printf("R %ld\n", (long)g_index);
       if (run_model(m)) outcome = "ran";
+      printf("L %ld\n", (long)g_index);
       g_armed = 1;
       mj_deleteModel(m);
       mj_freeLastXML();
